@@ -4,6 +4,7 @@ from __future__ import annotations
 import ast
 import hashlib
 import json
+import re
 import os
 import time
 from dataclasses import dataclass, field
@@ -120,6 +121,19 @@ def load_known() -> dict[str, Any]:
         return json.load(fh)
 
 
+#: wording of obligations that failed because the analysis could not bring
+#: a construct into a decidable form (as opposed to: decided, and wrong)
+_UNDECIDED = re.compile(
+    r"cannot normalise|not normalised|cannot be normalised|cannot be "
+    r"modelled|case analysis failed|cannot summarise|"
+    r"not understood|cannot be case-split|cannot model|could not be "
+    r"normalised|analysis does not track")
+
+
+def is_undecided(o: Obligation) -> bool:
+    return bool(_UNDECIDED.search(o.detail or ""))
+
+
 def finish(ctx: Ctx) -> int:
     """Print the reports, write evidence and return the exit code."""
     known = load_known()
@@ -144,6 +158,22 @@ def finish(ctx: Ctx) -> int:
     rc = 0
     os.makedirs(os.path.join(EVIDENCE_DIR, "replay"), exist_ok=True)
     seen: set[str] = set()
+    if fresh and all(is_undecided(o) for o in fresh):
+        # Nothing was found to be wrong, but some construct could not be
+        # brought into the form a rule decides (e.g. after a refactoring):
+        # that is no violation - the check declares itself unable to decide
+        # this tree (exit 2), it does not pass silently either.
+        for o in fresh:
+            if o.key() in seen:
+                continue
+            seen.add(o.key())
+            print(f"  {o.where}: [{o.rule}] in {o.function}: {o.construct}")
+            print(f"      {o.detail}")
+        print(f"ANALYSIS-ERROR property={ctx.prop}: undecided - "
+              f"{len(seen)} construct(s) could not be normalised; no "
+              "violation was found")
+        write_evidence(ctx, 0, sorted(reported_known))
+        return 2
     for o in fresh:
         if o.key() in seen:
             continue
